@@ -1,0 +1,49 @@
+//go:build verif
+
+// Contracts for package signature (signature-driven readers), checked by /verif/govc.
+// This file contains comments only and is compiled only with the build tag "verif".
+
+package signature
+
+// A TypeReader returns exactly the bytes it consumes (C02, C03), never reports success after a
+// failed read (C08) and stays within the stream (C07).
+//@ interface (t TypeReader) Read(r io.Reader) (result []byte, err error)
+//@   tags C02 C03 C07 C08
+//@   decoder r
+//@   ensures[C02,C03] err == nil ==> len(result) == r.pos - old(r.pos)
+//@   ensures[C02,C03] err == nil ==> forall j int {result[j]} :: 0 <= j && j < len(result) ==> result[j] == r.data[old(r.pos) + j]
+
+//@ func (c constReader) Read(r io.Reader) (result []byte, err error)
+//@   requires 0 <= c && c <= 8
+//@   opt alloclimit 8
+
+//@ func (v stringReader) Read(r io.Reader) (result []byte, err error)
+
+//@ func (v UnknownReader) Read(r io.Reader) (result []byte, err error)
+
+//@ func (v valueReader) Read(r io.Reader) (result []byte, err error)
+
+//@ func (v varReader) Read(r io.Reader) (result []byte, err error)
+//@   requires v.reader != nil
+//@   loop 1:
+//@     invariant 0 <= i && i <= size && buf.pos == 0 && buf.len == r.pos - old(r.pos) && buf.accepting
+//@     invariant forall j int {buf.data[j]} :: 0 <= j && j < buf.len ==> buf.data[j] == r.data[old(r.pos) + j]
+//@     invariant r.pos >= old(r.pos) + 4 && r.pos <= r.len
+//@     invariant (r.short ==> old(r.short)) && (old(r.short) ==> r.short)
+//@     decreases size - i
+//@     progress r.pos
+
+//@ func (v tupleReader) Read(r io.Reader) (result []byte, err error)
+//@   requires forall k int :: 0 <= k && k < len(v) ==> v[k].reader != nil
+//@   loop 1:
+//@     invariant buf.pos == 0 && buf.len == r.pos - old(r.pos) && buf.accepting
+//@     invariant forall j int {buf.data[j]} :: 0 <= j && j < buf.len ==> buf.data[j] == r.data[old(r.pos) + j]
+//@     invariant r.pos >= old(r.pos) && r.pos <= r.len
+//@     invariant (r.short ==> old(r.short)) && (old(r.short) ==> r.short)
+
+// The signature parser is a goparsec combinator tree outside the verifier's reach (DESIGN.md §5.6):
+// assumed to return a reader or an error.
+//@ func MakeReader(sig string) (result TypeReader, err error)
+//@   trusted
+//@   pure
+//@   ensures err == nil ==> result != nil
